@@ -539,6 +539,27 @@ theorem norm_T2_sequential (pre : List Ev) (hnf : ∀ e ∈ pre, e ≠ Ev.finish
     rw [seqRun_append, hrunE]
     simp [featsSt, seqRun_cons, seqRun_nil, seqStep]
 
+/-! ## an already sequential stream passes through unchanged, event by event -/
+
+/-- **Pass-through.** If the stream handed to `Normalize` is already sequential (accepted by the strict
+    automaton `seqOk` — the very condition T2 establishes for the output), every call forwards exactly the
+    event it received, at once: the per-call outputs are `[e₁], [e₂], …`. No further hypothesis. -/
+theorem norm_passthrough_sequential (evs : List Ev) (h : seqOk evs = true) :
+    ∃ n, normRun Norm.init evs = some (n, evs.map (fun e => [e])) := by
+  rw [seqOk_iff, Option.isSome_iff_exists] at h
+  obtain ⟨s, hs⟩ := h
+  exact passthrough_from {} s evs rfl rfl hs
+
+/-- hence `Normalize ∘ Normalize` forwards what `Normalize` forwards: the output of a contract-abiding run
+    is a fixed point -/
+theorem norm_idempotent (pre : List Ev) (hnf : ∀ e ∈ pre, e ≠ Ev.finished)
+    (hs : SafeRun Norm.init (pre ++ [Ev.finished]) = true) (hc : StartsRun Norm.init (pre ++ [Ev.finished]) = true) :
+    ∃ n outs n2, normRun Norm.init (pre ++ [Ev.finished]) = some (n, outs) ∧
+      normRun Norm.init outs.flatten = some (n2, outs.flatten.map (fun e => [e])) := by
+  obtain ⟨n, outs, hrun, hseq⟩ := norm_T2_sequential pre hnf hs hc
+  obtain ⟨n2, h2⟩ := norm_passthrough_sequential outs.flatten hseq
+  exact ⟨n, outs, n2, hrun, h2⟩
+
 /-! ## The whole run -/
 
 /-- run-Finished has not been seen: the queue is still open -/
